@@ -176,7 +176,11 @@ func c20GenState(t *rapid.T, shape *c20Shape) *c20State {
 	}
 	for _, w := range shape.Wits {
 		w.Origins = nil
-		for j, n := 0, 1+u("nOrigins", 3); j < n; j++ {
+		nOrigins := 1 + u("nOrigins", 3)
+		if !w.Mirror && !w.Staging && u("manyOrigins", 6) == 3 {
+			nOrigins = 110 + u("manyOriginsN", 60) // a report of several KiB: more than one write of the response body
+		}
+		for j, n := 0, nOrigins; j < n; j++ {
 			o := c20OriginSpec{Origin: fmt.Sprintf("%s.c20.test/origin%d", w.Short, j)}
 			if w.Mirror && u("mirrored", 10) < 7 {
 				o.Mirrored = true
